@@ -362,8 +362,10 @@ Definition alter_str (alter : Z) : list Z :=
 Definition STR_add : list Z := [97; 100; 100].
 Definition STR_no : list Z := [110; 111].
 
-(* _degrees_to_modifications, as the list of (prefix, degree) it writes *)
-Definition degrees_to_modifications (chord_degrees target_degrees : list degree)
+(* _degrees_to_modifications, as the list of (prefix, degree) it writes.
+   [fix2 = true]: with notes/C15-fix-2.diff (an added 7th is spelled relative to the flat 7th, as the
+   interpreter reads it); [fix2 = false]: the code as found. *)
+Definition degrees_to_modifications_v (fix2 : bool) (chord_degrees target_degrees : list degree)
   : res (list (list Z * Z)) :=
   let degrees := dict_of_pairs chord_degrees in
   let target := dict_of_pairs target_degrees in
@@ -373,8 +375,7 @@ Definition degrees_to_modifications (chord_degrees target_degrees : list degree)
           let '(degree, talter) := kv in
           match dict_get degrees degree with
           | None =>
-              (* an added 7th is relative to the flat 7th of the interpreter *)
-              let alter := if degree =? 7 then talter + 1 else talter in
+              let alter := if fix2 && (degree =? 7) then talter + 1 else talter in
               if negb (alter =? 0) && (degree >? 7)
               then Ok (out ++ [(alter_str alter, degree)])
               else Ok (out ++ [(STR_add ++ alter_str alter, degree)])
@@ -392,13 +393,17 @@ Definition degrees_to_modifications (chord_degrees target_degrees : list degree)
 
 Inductive figure := NoChord | Fig (s : sym).
 
-(* the part of pitches_to_chord_symbol after "best_root is None" *)
-Definition finish (bass : Z) (best : best_t) : res figure :=
+Definition degrees_to_modifications := degrees_to_modifications_v true.
+
+(* the part of pitches_to_chord_symbol after "best_root is None".
+   [fix1 = true]: with notes/C15-fix-1.diff (_SCALE_DEGREES indexed by the bass relative to the root);
+   [fix1 = false]: the code as found (indexed by the absolute bass pitch class). *)
+Definition finish_v (fix1 fix2 : bool) (bass : Z) (best : best_t) : res figure :=
   match best with
   | None => Err E_ChordSymbol
   | Some (best_root, k, best_degrees) =>
       bind (transpose_pitch_class CH_C 0 best_root) (fun rootpc =>
-      match nth_error SCALE_DEGREES (Z.to_nat ((bass - best_root) mod 12)) with
+      match nth_error SCALE_DEGREES (Z.to_nat (if fix1 then (bass - best_root) mod 12 else bass)) with
       | None => Err E_Index
       | Some bass_degrees =>
           let best_chord_degrees := snd k in
@@ -406,12 +411,15 @@ Definition finish (bass : Z) (best : best_t) : res figure :=
             if forallb (fun d => negb (deg_mem d bass_degrees)) best_chord_degrees
             then filter (fun d => negb (deg_mem d bass_degrees)) best_degrees
             else best_degrees in
-          bind (degrees_to_modifications best_chord_degrees target) (fun mods =>
+          bind (degrees_to_modifications_v fix2 best_chord_degrees target) (fun mods =>
           if bass =? best_root then Ok (Fig (mkSym rootpc (fst k) mods None))
           else bind (transpose_pitch_class CH_C 0 bass) (fun basspc =>
                Ok (Fig (mkSym rootpc (fst k) mods (Some basspc)))))
       end)
   end.
+
+(* the model follows the repaired code *)
+Definition finish := finish_v true true.
 
 Definition name_with (f : Z -> res (option kind * list degree)) (bass : Z) (others : list Z) : res figure :=
   bind (choose_root f (bass :: others)) (finish bass).
@@ -432,6 +440,18 @@ Definition name_pitches (pitches : list Z) : res figure :=
   match pitches with
   | [] => Ok NoChord
   | p0 :: _ => name_ord (pyset_iter (pcs_of pitches)) (list_min p0 pitches mod 12)
+  end.
+
+(* pitches_to_chord_symbol with either repair switched off ([false false] = the code as found);
+   [name_pitches_v true true = name_pitches] by definition *)
+Definition name_pitches_v (fix1 fix2 : bool) (pitches : list Z) : res figure :=
+  match pitches with
+  | [] => Ok NoChord
+  | p0 :: _ =>
+      let bass := list_min p0 pitches mod 12 in
+      let others := pyset_iter (filter (fun x => negb (x =? bass)) (pyset_iter (pcs_of pitches))) in
+      let cands := bass :: others in
+      bind (choose_root (fun root => largest_kind_from_rel (rel_of cands root)) cands) (finish_v fix1 fix2 bass)
   end.
 
 (** ** Rendering (the string the function returns) *)
